@@ -488,8 +488,26 @@ func genC17(c *lp.Ctx) {
 	buildHistory(c)
 	n := c.Pick(150, 800)
 	maxKeys := c.Pick(600, 4000)
-	for it := 0; it < n; it++ {
-		ks := sizeShapes(c, 1+c.Rng.Intn(maxKeys))
+	// the short-bitmap table's worst case: many distinct label bitmaps, each used a few times (a grid, all of it
+	// in every run: the window in which a wrong cost model shows is narrow)
+	var grid []gen.KeySet
+	for _, k := range []int{2, 3} {
+		for _, nd := range []int{10, 20, 30, 40, 45, 48, 52, 60, 80, 100, 120} {
+			for rep := 1; rep <= 5; rep++ {
+				if nd*rep > 300 || (k == 3 && rep > 3) {
+					continue // the script line grows with n*n
+				}
+				grid = append(grid, gen.DistinctBitmaps(c.Rng, k, nd, rep))
+			}
+		}
+	}
+	for it := 0; it < n+len(grid); it++ {
+		var ks gen.KeySet
+		if it < len(grid) {
+			ks = grid[it]
+		} else {
+			ks = sizeShapes(c, 1+c.Rng.Intn(maxKeys))
+		}
 		if len(ks.Keys) == 0 {
 			continue
 		}
@@ -593,6 +611,20 @@ func genC20(c *lp.Ctx) {
 		if a != "ok inputs-unchanged" {
 			cs.viol(c, "building must not modify the caller's keys, values or option struct", line, "ok inputs-unchanged", a)
 			continue
+		}
+		// The build is over and trie.new has OVERWRITTEN every caller-owned value buffer and flipped the option
+		// bools: a trie that kept a reference to caller memory instead of a copy answers with the overwritten
+		// bytes from now on.  Direct predicate: every retained key still answers with the value the script supplied.
+		for i, k := range cs.RKeys {
+			if len(cs.RKeys) > 60 && i%7 != 0 && i != len(cs.RKeys)-1 {
+				continue
+			}
+			want := cs.valAns(cs.RVals[i])
+			if got := c.Do("trie.get " + lp.XS(k)); got != want {
+				cs.viol(c, "the trie does not alias the caller's value memory: overwriting the value slice after the build changes no answer",
+					"trie.get "+lp.XS(k), want, got)
+				break
+			}
 		}
 		qs := gen.Queries(c.Rng, cs.Keys, c.Pick(20, 80))
 		before := cs.battery(c, qs, false)
